@@ -264,3 +264,21 @@ ROUND6 = {
     "C17": _APP_LAST % ("Manager and Boss", "C17.R12") + " Manager.fail errors the main channel before anything else can raise (C17.R11); Dilator.stop chains stoppedD whichever way Manager.stop() returns (C17.R3); versions that arrived before dilate() are forwarded unless the slot is None - an empty versions object is a peer that cannot dilate (C17.R4).",
     "C20": "The result of endpoint_from_hint_obj (None for a hint no endpoint can reach) is tested before use at every call site, wrappers included (C20.R7); a contender whose connection attempt failed - a peer-supplied name that does not resolve - stays failed (C20.R8); Manager.use_hints decides hint by hint, reading and keeping no Manager state (C20.R2).",
 }
+
+
+_PAYLOAD = ("No code on the mailbox message path decides anything by the truthiness of a payload value: the empty message b\"\" is a message "
+            "(%s; 24 functions of wormhole.py, _boss.py, _send.py, _receive.py).")
+_OBS = ("SequenceObserver, whatever its layout: an event is taken together with the Deferred it is for, in one activation; a reader cannot overtake an older "
+        "waiting one; a Deferred taken out of the waiting list is called back in that activation (a cancel in between cannot lose the event); callbacks run "
+        "only from the eventual queue")
+ROUND7 = {
+    "C03": _PAYLOAD % "C03.R7" + " " + _OBS + " (C03.R3).",
+    "C04": "FileConsumer.write puts the data into the file before any callback runs (C04.R10: a re-entrant progress callback can make the hash mismatch, never the file); the JSON codec of the control messages does no normalisation (C04.R11).",
+    "C08": _PAYLOAD % "C08.R10: a valid empty message is not an undecryptable one" + " The typestate product models the claim the server makes when it allocates a nameplate; close() while `allocate` is outstanding leaves it (known finding F18, printed as KNOWN-FINDING).",
+    "C09": _PAYLOAD % "C09.R8",
+    "C11": "A valid prologue / relay reply is recognised under any segmentation of the byte stream (C11.R9, the _get_expected instances of C12.R4): the one connection attempt the network lets through is not dropped.",
+    "C13": "Every OPEN / DATA / CLOSE that reaches Manager.got_record is acknowledged and dispatched whatever the connection bookkeeping says at that moment (C13.R8, the instances of C10.R4).",
+    "C14": "An assert about a value another machine built is discharged by the builder's shape (C14.R7: Allocator.build_and_notify for every word count, zero included); a Deferred fired in place by a client machine is a re-entry point of the product and the re-entrant environment is part of the quick tier.",
+    "C17": "Version negotiation, interpreted by the JSON type-guard engine with any JSON value for the peer's can-dilate entry, cannot raise (C17.R13).",
+    "C18": "Inbound de-duplication is by phase (C18.R8, the instances of C02.R5): a second copy of a processed phase, also re-encrypted, never reaches the application. " + _OBS + " (C18.R6).",
+}
